@@ -100,7 +100,8 @@ def gen_case(seed, tier):
         seen.add((nm, num))
         resources.append(dict(_gen_ios(cfg, pool, conns, 0, 0.5), name=nm, number=num))
     config = {"family": family, "connectors": conns, "resources": resources, "default_clk": None}
-    cands = [r for r in resources if r["number"] == 0 and "pins" in r and len(r["pins"]) == 1 and r["dir"] == "i"]
+    cands = [r for r in resources if r["number"] == 0 and "pins" in r and len(r["pins"]) == 1 and r["dir"] == "i"
+             and r["clock_mhz"]]      # (vendor platforms demand a constrained default clock)
     if cands and cfg.random() < 0.4:
         # the platform requests this resource itself (create_missing_domain) when the design uses an undeclared `sync` domain
         config["default_clk"] = cfg.choice(cands)["name"]
